@@ -115,6 +115,31 @@ def rule_u2(ctx):
             raise Unrecognised("C07.U2", f"{Z3H}:smt_expr_to_str", f"operator spelling {src(v)} not constant")
         ctx.check(sp in lits or _re.fullmatch(r"[A-Za-z_][A-Za-z_\-.^0-9]*", sp) is not None, "U2-vocabulary", f"{Z3H}:smt_expr_to_str", f"{src(k)} -> '{sp}'", site(v),
                   f"smt_expr_to_str spells {src(k)} as '{sp}', which is neither an operator literal of IslaLanguage.g4 nor lexes as an ID", "operator literal / ID of the grammar")
+    # Z3 declaration names that differ from the spelling the ISLa reader accepts: the generic fallback `f.decl().name()` would emit them verbatim.
+    # (trusted table about the z3 package: ITE is named "if"; every other operator of the fragment round-trips under its own name)
+    Z3_DIVERGENT = {"z3.Z3_OP_ITE": ("if", "ite")}
+    fallback = any(isinstance(a, ast.Assign) and src(a.targets[0]) == "op" and src(a.value) == "f.decl().name()" for a in walk_local(f))
+    spelled = {src(k): v for k, v in zip(ops.keys, ops.values)}
+    prot = ctx.repo.func(LANG, "ISLaEmitter.is_protected_smtlib_keyword", "C07.U2")
+    protected = set()
+    for n in ast.walk(prot):
+        if isinstance(n, ast.Set):
+            try:
+                protected |= set(fold(n))
+            except NotConstant:
+                pass
+    for kind, (z3name, want) in Z3_DIVERGENT.items():
+        if not fallback:
+            break
+        got = None
+        if kind in spelled:
+            try:
+                got = fold(spelled[kind])
+            except NotConstant:
+                got = None
+        ctx.check(got == want and want in protected, "U2-vocabulary", f"{Z3H}:smt_expr_to_str", f"{kind} -> '{want}' (Z3 names it '{z3name}')", site(ops),
+                  f"{kind} is printed through the fallback `f.decl().name()` as '{z3name}', which the ISLa reader takes for an undeclared variable (its keyword list has '{want}'): "
+                  f"`(= (ite (= v \"a\") \"x\" \"y\") \"x\")` does not survive unparse/parse", f"op_strings[{kind}] == '{want}' and '{want}' is a protected keyword of the reader")
     for n in ast.walk(f):
         if isinstance(n, ast.JoinedStr):
             t = "".join(p.value for p in n.values if isinstance(p, ast.Constant))
@@ -443,6 +468,9 @@ def run(ctx) -> str:
     ctx.guarded("U8", lambda: rule_u8(ctx, box.get("m") or {}))
     # SMT string literals: non-ASCII escaping before Z3 parsing, unicode unescape of literal values, self-escaped escape character (shared with C17)
     ctx.guarded("U9", lambda: c17.rule_s5(ctx, "U9"))
+    from . import c05
+
+    ctx.guarded("U10", lambda: c05.rule_r9(ctx, "U10", only_functions={"smt_expr_to_str"}))
     ctx.assume("generated parser/lexer files under src/isla/isla_language are in sync with IslaLanguage.g4 (literalNames cross-checked)")
     ctx.assume("ANTLR runtime member names are read from the installed antlr4 package sources")
     return EXPLANATION
